@@ -101,6 +101,21 @@ check("C15", "exploration",
       "Liveness is approximated by generous bounds with a repeat rule. Histories with a steady stream of connections faster than the 100 ms poll quantum are outside the quantifier (see DESIGN.md D12).",
       "scenario-based property testing with time-bound oracles (fixed family + proptest plans)", "DESIGN.md §4 C15")
 
+check("C18", "exploration",
+      "Differential testing of the built `varlink bridge` in four modes (resolver lookup through a harness resolver with two test services behind it, --connect, --activate, --bridge): fixed sessions for every mode plus proptest-generated sessions (plain/more/oneway calls across both services, service-info queries, optional upgrade with arbitrary payload sent after or together with the upgrade request, pipelined or one-at-a-time client, and the close-right-after-last-request variant). The bridge's stdout must equal byte for byte the reply stream of direct sockets to the same services (GetInfo from the resolver in resolver mode; upgraded payload answered by its upper-cased echo) and the bridge must exit 0 after the client closes.",
+      "Trusted: helper services vl-svc (harness). Resolver mode is restricted to request kinds whose interface resolves and after which services keep their connection open. A bridge that does not deliver / exit within 10 s twice in a row is reported as stuck; once is only counted.",
+      "differential testing against direct connections (process level), proptest sessions with shrinking", "DESIGN.md §4 C18")
+
+check("C19", "fault_enumeration",
+      "Systematic single-fault enumeration against the built varlink-certification process: for each of the 13 steps the canonical prefix is run on a fresh raw connection (parameters learned from the service's own replies), then one deviating request is sent: all 7 non-canonical flag combinations, parameters removed / null / retyped, unknown / empty / foreign client id, every other step's request (wrong position), and per leaf of the canonical parameters: removal, change within type, retyping to each other JSON type (818 deviations, semantically equal encodings excluded). Then proptest double deviations and 1..16 concurrent canonical clients with tape-driven interleaving. A deviating request must never get a reply without `error`.",
+      "Trusted: the harness' notion of semantically equal encodings (int for equal float, null for absent optional, string-set element values, unknown members of struct-typed values). Stalls are inconclusive.",
+      "systematic fault injection per protocol step + proptest double faults and interleavings", "DESIGN.md §4 C19")
+
+check("C20", "exploration",
+      "The built `varlink call` is run against a scripted fake service (raw sockets): a sweep k=0..8 x {success, custom error, standard error, closed connection} and proptest-generated cases over reply values (boundary integers, floats, non-ASCII / escape-heavy strings, nested values, absent/null parameters), --more with 0..8 continues replies, the four standard errors with well-typed / missing / ill-typed parameters, custom errors, connection closed before the final reply, three address forms (unix path with several slashes, abstract, tcp) and --color on/off. stdout parsed as a JSON document stream must equal the successful replies' parameters in order, exit status 0 iff all replies arrived and none was an error, stderr names error and parameters, and the fake service must have received exactly method, `more` flag and arguments.",
+      "Trusted: the fake service (harness), serde_json (values restricted to what it carries losslessly through its own text form).",
+      "property-based testing of the CLI against a scripted fake server (process level)", "DESIGN.md §4 C20")
+
 ALL = ["C%02d" % i for i in range(1, 21)]
 
 NOT_BUILT_REASON = "check not built yet in this round (design in DESIGN.md §4); not claimed until it exists and is validated"
